@@ -239,6 +239,7 @@ fn exec(
             let frames: Vec<Value> = if req["path"].as_str() == Some("stream") {
                 let opts = ReadOptions::builder()
                     .follow(FollowOption::Off)
+                    .tail(req["tail"].as_bool().unwrap_or(false))
                     .maybe_last_id(last)
                     .maybe_limit(limit)
                     .maybe_context_id(ctx)
